@@ -382,6 +382,9 @@ func (w *workerState) handle(raw json.RawMessage) any {
 	if known == nil {
 		known = map[uint64]struct{}{}
 		w.states[t.Scenario] = known
+		// first task of this scenario in this process: one default execution that is thrown away, so that whatever the
+		// code under test builds lazily and keeps for the life of the process exists before executions are recorded
+		mcrt.Run(nil, e.Body, mcrt.RunOpts{MaxSteps: e.MaxSteps, Races: e.Races})
 	}
 	e.Stats.States = map[uint64]struct{}{}
 	res := taskResult{Outcomes: map[string]int{}}
